@@ -93,6 +93,7 @@ func main() {
 	prefix := flag.String("prefix", "", "run a single path with this decision prefix (comma separated)")
 	sampleEvery := flag.Int("sample-every", 0, "keep the replay vector of every n-th path")
 	trace := flag.Bool("trace", false, "trace")
+	concBound := flag.Int("conc-bound", 64, "max values enumerated when a symbolic index/length is concretised")
 	bsites := flag.Bool("branch-sites", false, "label branch queries by source position")
 	cpuprof := flag.String("cpuprofile", "", "write cpu profile")
 	flag.Parse()
@@ -106,7 +107,7 @@ func main() {
 	eng := loadEngine(*repo, strings.Split(*pkgs, ","), overlays)
 	cfg := &Config{Harness: *harness, Bounds: map[string]int64{}, MaxSteps: *maxSteps, MaxDepth: 400, MaxGoroutines: 64,
 		MaxPaths: *maxPaths, MaxSeconds: *maxSec, Workers: *workers, SolverArgv: strings.Fields(*solver), FallbackArgv: strings.Fields(*fallback), TimeoutMs: *timeout,
-		SchedExplore: *sched, SchedPolicy: *policy, MaxPreempt: *preempt, Race: *race, ConcBound: 64, trackFns: true, Trace: *trace,
+		SchedExplore: *sched, SchedPolicy: *policy, MaxPreempt: *preempt, Race: *race, ConcBound: *concBound, trackFns: true, Trace: *trace,
 		OpenClasses: map[string]bool{}, SampleEvery: *sampleEvery, BranchSites: *bsites}
 	for _, kv := range strings.Split(*bounds, ",") {
 		if kv == "" {
